@@ -265,16 +265,19 @@ def mutate_invalid(rng, methods):
         methods.append(other)
     elif kind == "payload_ty":
         def other_ty(t):
-            # a different type: a plain one, or one that shares the outer name and differs in a type argument / module
+            # a different type: mostly one that shares the outer name and differs in a type argument or in the module it
+            # comes from (what a comparison by the last path segment would miss), sometimes a plainly different one
+            txt = t.rust().replace(" ", "")
             r = rng.random()
-            if r < 0.4:
-                return P("u64") if t.rust() != "u64" else P("u32")
-            if r < 0.7:
-                return P("Vec", P("u64")) if t.rust().replace(" ", "") != "Vec<u64>" else P("Vec", P("String"))
-            if r < 0.85:
-                return P("Option", P("u8")) if t.rust().replace(" ", "") != "Option<u8>" else P("Option", P("String"))
-            return PP("other", "Binary") if t.rust() == "Binary" else PP("other", t.rust().split("<")[0].split("::")[-1].strip())
-        m.payload = [(n, rng.choice([t, P("Vec", P("String")), P("Option", P("String"))])) for n, t in m.payload] if not m.raw else m.payload
+            if txt.startswith("Vec<"):
+                return P("Vec", P("u64")) if txt != "Vec<u64>" else P("Vec", P("String"))
+            if txt.startswith("Option<"):
+                return P("Option", P("u8")) if txt != "Option<u8>" else P("Option", P("String"))
+            if r < 0.5:
+                return PP("other", txt.split("<")[0].split("::")[-1])
+            return P("u64") if txt != "u64" else P("u32")
+        if not m.raw:
+            m.payload = [(n, rng.choice([t, t, P("Vec", P("String")), P("Option", P("String"))])) for n, t in m.payload]
         other = RMethod(name=m.name + "_o", on={"success": "error", "error": "success", "always": "error"}[m.on],
                         handlers=list(m.claims())[:1], payload=[(n, other_ty(t)) for n, t in m.payload], raw=False)
         methods.append(other)
@@ -547,7 +550,8 @@ class ReplyCorpus:
         d = os.path.join(CACHE, "crates", self.tag)
         with common.locked("cargo"):
             os.makedirs(os.path.join(d, "src"), exist_ok=True)
-            shutil.copy(os.path.join(SRC, "Cargo.toml"), os.path.join(d, "Cargo.toml"))
+            with open(os.path.join(d, "Cargo.toml"), "w") as f:
+                f.write(common.repo_paths(open(os.path.join(SRC, "Cargo.toml")).read()))
             if not os.path.exists(os.path.join(d, "Cargo.lock")):
                 shutil.copy(os.path.join(REPO, "Cargo.lock"), os.path.join(d, "Cargo.lock"))
             shutil.copy(os.path.join(SRC, "src", "rt.rs"), os.path.join(d, "src", "rt.rs"))
